@@ -17,6 +17,11 @@ TRUSTED = ['Model.Padding models a Python generator by the list of its yields, e
            'Spec.Padding is a rendering of ISO/IEC 9797-1 methods 1 and 2, RFC 5652 (PKCS#7), ANSI X9.23, RFC 1321, FIPS 180-4 '
            'and the BLAKE submission']
 ASSUMPTIONS = ['python -O (asserts stripped) is out of scope',
+               'theorem hypotheses (Valid p): block size a positive multiple of 8; PKCS#7/X9.23 block length < 256 bytes; MD/SHA word size a '
+               'multiple of 4 with 2w+1 <= B (below that the code raises for some messages: known finding C09-md-small-block); BLAKE with '
+               'its own block size; messages are lists of byte values; byte-granular schemes get no bit length',
+               'continuation with an EMPTY last piece holds for the schemes that always pad (bit, PKCS#7, X9.23, MD, SHA, BLAKE); zero padding '
+               'and the unpadded scheme then pad/emit the empty piece on its own (their last full block is already out)',
                'block size 0 (iterblocks never terminates) is out of domain',
                'byte-granular schemes (none, PKCS#7, X9.23) with an explicit bitlen are compared code<->model only (the property gives '
                'bit lengths to bit-granular schemes only)',
@@ -341,7 +346,7 @@ def lengths_for(s, B, w, dense):
     return sorted(L for L in Ls if L >= 0)
 
 
-def single_lines(s, B, w, rng, dense, ops=('pad.iter', 'pad.cat', 'pad.rt')):
+def single_lines(s, B, w, rng, dense, ops=('pad.iter', 'pad.cat', 'pad.rt'), light=False):
     h = hdr(s, B, w)
     for L8 in lengths_for(s, B, w, dense):
         nbytes = (L8 + 7) // 8
@@ -349,7 +354,7 @@ def single_lines(s, B, w, rng, dense, ops=('pad.iter', 'pad.cat', 'pad.rt')):
         if s in BITGRAN:
             if L8 % 8 == 0:
                 # every L mod 8 below this byte count, plus surplus data behind the bit length
-                for r in range(1, 8):
+                for r in ((rng.randrange(1, 8),) if light else range(1, 8)):
                     if L8 - r >= 0: variants.append((nbytes, L8 - r))
                 variants.append((nbytes + rng.choice((1, 2, B // 8, B // 8 + 1)), L8))
                 variants.append((nbytes, L8))
@@ -492,9 +497,11 @@ def cases(tier, rng):
     for s, B, w in configs(denseB):
         if s == 'blake': continue
         yield from single_lines(s, B, w, rng, True)
+    fullops = set(rng.sample(sparseB, 12)) | {b for b in sparseB if b % 128 == 0}
     for s, B, w in configs(sparseB):
+        allops = s == 'blake' or B in (512, 1024) or (tier != 'quick' and B in fullops)
         yield from single_lines(s, B, w, rng, tier != 'quick' and s == 'blake',
-                                ops=('pad.iter', 'pad.cat', 'pad.rt') if tier != 'quick' or s in ('blake',) or B in (512, 1024) else ('pad.iter',))
+                                ops=('pad.iter', 'pad.cat', 'pad.rt') if allops else ('pad.iter',), light=s in ('md', 'sha'))
     for s, B, w in configs(sorted(set(denseB + sparseB))):
         if s == 'blake' and B != sparseB[0] and B != denseB[0]: pass
         yield from refusal_lines(s, B, w, rng)
